@@ -94,6 +94,12 @@ CLAIMED["C04"] = ("The register map ptrace -> context (with the format's truncat
             "Trusted: TLC, mdparse's context decoder, the harness's ptrace oracle (threads parked in pause), limb projection; x86-64 only.",
             "TLA+ model checking (TLC) + scenario-generated dumps + trace validation against a declarative register map", "DESIGN.md 4/C04")
 
+CLAIMED["C17"] = ("TLC checks C17 on a model of the three read strategies for every start/length over a readable extent that ends at unreadable memory; every TLC "
+            "case is replayed on MemReader::for_virtual_mem / for_file / for_ptrace against an attached target whose pattern-filled region ends at an "
+            "unmapped page, plus random ranges up to 64 KiB; TLC judges the outcome and compares it with the model's result for the strategy.",
+            "Trusted: TLC, the address-derived pattern as oracle (cross-checked once through /proc/<pid>/mem), the byte comparator; unreadable = unmapped.",
+            "TLA+ model checking (TLC) + model-generated replay + trace validation", "DESIGN.md 4/C17")
+
 NOT_YET = {
 }
 
